@@ -110,9 +110,14 @@ def _one(run, c, expect_ok, st):
         vids_ = list(ed['vids'])
         inf_ = info_of(ed['info'])
         est_ = value_of(ed['est'], 0.0)
+        kw = {}
+        if run.replayed % 4 == 3:
+            # History dimension (constructor form): the edge is created with the optional `vertices=` argument holding Vertex objects of some
+            # EARLIER graph whose ids are other ids; what an edge is attached to is decided by the ids it NAMES
+            kw['vertices'] = [Vertex(1000 + j, B.pose('R2', (7, 7))) for j in range(len(vids_))]
         if ed['cls'] == 'odo':
-            return EdgeOdometry(vids_, inf_, est_)
-        return EdgeLandmark(vids_, inf_, est_, value_of(ed['off'], 0.25), offset_id=0)
+            return EdgeOdometry(vids_, inf_, est_, **kw)
+        return EdgeLandmark(vids_, inf_, est_, value_of(ed['off'], 0.25), offset_id=0, **kw)
     elist = [mk(ed) for ed in st['edges']]
     e = elist[-1]                       # the edge under test (a consistent companion may be listed before it)
     ed = st['edges'][-1]
